@@ -23,7 +23,7 @@ func init() {
 			"(P13-decoders) every kong mapper rejects the empty value, passes the value to its domain constructor, returns its error and stores the parsed value; (P13-sortcopy) Sort sorts a fresh copy by the two records' dates and flips for descending; " +
 			"(P13-args-applied / P13-dead-prefilter) every command embedding FilterArgs/SortArgs applies them and continues with the returned slice only. " +
 			"Not covered: the predicate semantics themselves (date comparison, tag matching), period arithmetic (C15), reduction of entries inside a record.",
-		rules: []ruleFn{ruleP13Translate, ruleP13Clauses, ruleP13Decoders, ruleP13SortCopy, ruleP13SortFlag, ruleP13EntryTypes, ruleP13Reduce, ruleP13ArgsApplied, ruleP15Steps},
+		rules:   []ruleFn{ruleP13Translate, ruleP13Clauses, ruleP13Decoders, ruleP13SortCopy, ruleP13SortFlag, ruleP13EntryTypes, ruleP13Reduce, ruleP13ArgsApplied, ruleP15Steps},
 		trusted: []string{"kong fills flag fields according to their `name` struct tags and calls the registered mappers"},
 	})
 }
@@ -381,12 +381,12 @@ func ruleP13Clauses(p *Prog, r *Report) {
 		return strings.Join(pre, ",") + "=>" + desc
 	}
 	want := map[string]string{
-		"has:AtDate=>date!=AtDate":               "--date clause",
-		"has:BeforeOrEqual=>date>BeforeOrEqual":  "until clause",
-		"has:AfterOrEqual=>date<AfterOrEqual":    "since clause",
-		"has:Tags=>tags-unmatched":               "tag clause",
-		"=>tags-unmatched":                       "tag clause",
-		"has:EntryType=>type-unmatched":          "entry-type clause",
+		"has:AtDate=>date!=AtDate":              "--date clause",
+		"has:BeforeOrEqual=>date>BeforeOrEqual": "until clause",
+		"has:AfterOrEqual=>date<AfterOrEqual":   "since clause",
+		"has:Tags=>tags-unmatched":              "tag clause",
+		"=>tags-unmatched":                      "tag clause",
+		"has:EntryType=>type-unmatched":         "entry-type clause",
 	}
 	seen := map[string]bool{}
 	nAppend := 0
